@@ -607,4 +607,12 @@ def run(ctx):
              'command and topic handling is reached only with at least k characters known for s (size tests, prefix comparison, '
              'character test, successful find); a weaker test lets a short request end the daemon with std::out_of_range',
              minimum=3)
-    _common.substr_bound_rule(ctx, 'C18.R11', lambda f: f.relfile.startswith(('src/ebusd/request.', 'src/ebusd/mainloop.', 'src/ebusd/mqtthandler.', 'src/ebusd/network.')), 3)
+    _common.substr_bound_rule(ctx, 'C18.R11', lambda f: f.relfile.startswith(('src/ebusd/request.', 'src/ebusd/mainloop.', 'src/ebusd/mqtthandler.', 'src/ebusd/network.')), 1)
+    ctx.rule('C18.R15', 'the closing quote of an argument is looked for in a token that has a last character: s.length() - k used '
+             'as a position of s in the request sources is reached only with at least k characters in s (for an empty token the '
+             'difference wraps around)', minimum=1)
+    _common.size_minus_rule(ctx, 'C18.R15', lambda f: f.relfile.startswith(('src/ebusd/request.', 'src/ebusd/mainloop.', 'src/ebusd/network.')), 1)
+    ctx.rule('C18.R16', 'a search result is a position only if something was found: in the request, command and topic handling a '
+             'result of find/rfind used as it is as the start of erase/substr/at/insert/replace is reached only behind a test '
+             'that excludes npos', minimum=1)
+    _common.find_result_rule(ctx, 'C18.R16', lambda f: f.relfile.startswith(('src/ebusd/request.', 'src/ebusd/mainloop.', 'src/ebusd/mqtthandler.', 'src/ebusd/network.')), 1)
